@@ -534,3 +534,269 @@ def run_session(cfg, actions):
     if _loop is None or _loop.is_closed():
         _loop = asyncio.new_event_loop()
     return _loop.run_until_complete(run_session_async(cfg, actions))
+
+
+# ==== C17, payload dimension (spec/WebSocketMedia.tla): repeated frames, application-side mutation ==========
+# One application (falcon's own JSONHandlerWS for TEXT and MessagePackHandlerWS for BINARY), several
+# connections, the vocabulary of WebSocketMedia.tla:
+#     {'a': 'open'|'close', 'c': conn}             {'a': 'csend', 'c': conn, 'k': 'text'|'bin', 'b': base id}
+#     {'a': 'recv', 'c': conn}                      {'a': 'mutate', 'o': object, 'm': mark, 'wh': 'top'|'deep'}
+#     {'a': 'make', 'b': base id}                   {'a': 'send', 'c': conn, 'o': object, 'k': 'text'|'bin'}
+# A value of the specification is {'b': base id, 'ext': [marks appended at the top], 'in': [marks appended to
+# the nested list]}; base ids: b % 3 = 1 scalar, 2 list, 0 dict; b > 3: the encoding is longer than 128 characters.
+# The runner drives the real code and abstracts what it sees with trusted codecs (json, msgpack); it decides nothing.
+
+_LONG = 'é' + 'x' * 150
+
+
+def media_base(b):
+    """A NEW concrete object for base id b (mutable bases end in / contain a nested list [0])."""
+    return {1: 7, 2: [1, 'a', [0]], 3: {'a': 1, 'n': [0]},
+            4: _LONG, 5: [_LONG, 2.5, None, [0]], 6: {'a': _LONG, 'z': {'y': [True]}, 'n': [0]}}[b]
+
+
+_NPREFIX = {2: 2, 5: 3}
+BAD_VALUE = {'b': -1, 'ext': [], 'in': []}
+
+
+def _marks(xs):
+    return all(type(x) is int for x in xs)
+
+
+def media_concrete(v):
+    """specification value -> NEW concrete object."""
+    obj = media_base(v['b'])
+    for m in v['in']:
+        (obj[_NPREFIX[v['b']]] if isinstance(obj, list) else obj['n']).append(m)
+    for i, m in enumerate(v['ext']):
+        if isinstance(obj, list):
+            obj.append(m)
+        else:
+            obj['_m%d' % (i + 1)] = m
+    return obj
+
+
+def media_abstract(obj):
+    """concrete object -> specification value (b = -1: not a value of the vocabulary)."""
+    for b in (1, 4):
+        if type(obj) is type(media_base(b)) and obj == media_base(b):
+            return {'b': b, 'ext': [], 'in': []}
+    if type(obj) is list:
+        for b, n in _NPREFIX.items():
+            base = media_base(b)
+            if len(obj) > n and obj[:n] == base[:n] and type(obj[n]) is list and obj[n][:1] == [0] \
+                    and _marks(obj[n][1:]) and _marks(obj[n + 1:]) and repr(obj[:n]) == repr(base[:n]):
+                return {'b': b, 'ext': list(obj[n + 1:]), 'in': list(obj[n][1:])}
+    if type(obj) is dict:
+        for b in (3, 6):
+            base = media_base(b)
+            rest = {k: x for k, x in obj.items() if k != 'n' and not (isinstance(k, str) and k.startswith('_m'))}
+            base.pop('n')
+            ext = [obj.get('_m%d' % (i + 1)) for i in range(len(obj) - len(rest) - 1)]
+            if rest == base and repr(sorted(rest.items())) == repr(sorted(base.items())) and type(obj.get('n')) is list \
+                    and obj['n'][:1] == [0] and _marks(obj['n'][1:]) and _marks(ext):
+                return {'b': b, 'ext': ext, 'in': list(obj['n'][1:])}
+    return dict(BAD_VALUE)
+
+
+def media_mutable(obj):
+    return isinstance(obj, (list, dict))
+
+
+def _msgpack():
+    """The msgpack package, or the copy pip vendors (the same library, pure-Python fallback)."""
+    try:
+        import msgpack
+        return msgpack
+    except ImportError:
+        from pip._vendor import msgpack
+        return msgpack
+
+
+def media_encode(k, obj):
+    """Client side: the frame for an object (trusted encoders)."""
+    if k == 'text':
+        return {'type': 'websocket.receive', 'text': json.dumps(obj, ensure_ascii=False)}
+    return {'type': 'websocket.receive', 'bytes': _msgpack().packb(obj, use_bin_type=True)}
+
+
+def media_decode_sent(ev, k):
+    """Server side: the value of a frame the application sent (trusted decoders); kind must be k."""
+    try:
+        if k == 'text' and isinstance(ev.get('text'), str) and ev.get('bytes') is None:
+            return media_abstract(json.loads(ev['text']))
+        if k == 'bin' and isinstance(ev.get('bytes'), bytes) and ev.get('text') is None:
+            return media_abstract(_msgpack().unpackb(ev['bytes'], raw=False))
+    except Exception:      # noqa: undecodable frame = not a value of the vocabulary
+        pass
+    return dict(BAD_VALUE)
+
+
+class MediaServer(FakeServer):
+    def __init__(self, ver):
+        FakeServer.__init__(self, ver)
+        self.raw = []
+
+    async def send(self, ev):
+        self.raw.append(ev)
+        self.mon.check(ev)
+        self.mon.accepted_by_server(ev)
+
+
+class MediaConn:
+    def __init__(self, world):
+        self.world = world
+        self.gate = None
+        self.result = None
+
+
+class MediaResource:
+    async def on_websocket(self, req, ws):
+        import falcon
+        s = req.scope['verif']
+        await ws.accept()
+        loop = asyncio.get_running_loop()
+        while True:
+            s.gate = loop.create_future()
+            act = await s.gate
+            s.gate = None
+            if act['a'] == 'close':
+                s.result = ('ok', None)
+                return
+            try:
+                if act['a'] == 'recv':
+                    s.result = ('ok', await ws.receive_media())
+                else:
+                    pt = falcon.WebSocketPayloadType.TEXT if act['k'] == 'text' else falcon.WebSocketPayloadType.BINARY
+                    await ws.send_media(s.world[act['o'] - 1], pt)
+                    s.result = ('ok', None)
+            except Exception as ex:         # noqa: recorded, never judged here
+                s.result = ('exc', repr(ex))
+
+
+_media_apps = {}
+
+
+def get_media_app(maxq):
+    import sys
+    import falcon
+    import falcon.asgi
+    import falcon.media
+    if maxq not in _media_apps:
+        had = 'msgpack' in sys.modules
+        if not had:
+            sys.modules['msgpack'] = _msgpack()       # falcon's handler does `import msgpack` when constructed
+        try:
+            app = falcon.asgi.App()
+            app.ws_options.max_receive_queue = maxq
+            app.ws_options.media_handlers[falcon.WebSocketPayloadType.BINARY] = falcon.media.MessagePackHandlerWS()
+        finally:
+            if not had:
+                sys.modules.pop('msgpack', None)
+        app.add_route('/media', MediaResource())
+        _media_apps[maxq] = app
+    return _media_apps[maxq]
+
+
+async def run_media_session_async(cfg, actions):
+    """cfg: maxq.  Returns (events, info): one record per executed action with parameters as given and
+    v / shared / wv / heap as OBSERVED (vocabulary of spec/WebSocketMedia.tla)."""
+    app = get_media_app(cfg['maxq'])
+    world = []                    # every object the application obtained, by identity (index + 1 = object id)
+    conns = {}
+    out = []
+    errors = []
+
+    def take(act, **obs):
+        o = {'a': act['a'], 'c': act.get('c', 0), 'o': act.get('o', 0), 'k': act.get('k', ''), 'b': act.get('b', 0),
+             'm': act.get('m', 0), 'wh': act.get('wh', ''), 'v': dict(BAD_VALUE, b=0), 'wv': dict(BAD_VALUE, b=0),
+             'shared': False}
+        o.update(obs)
+        o['heap'] = [media_abstract(x) for x in world]
+        out.append(o)
+
+    for act in actions:
+        a = act['a']
+        if a == 'open':
+            srv = MediaServer((2, 4))
+            ses = MediaConn(world)
+            task = asyncio.ensure_future(app(make_scope((2, 4), '/media', ses), srv.receive, srv.send))
+            conns[act['c']] = (srv, ses, task)
+            await _settle()
+            if srv.mon.state != 'open' or ses.gate is None:
+                errors.append('connection %d was not accepted' % act['c'])
+            take(act)
+        elif a == 'csend':
+            conns[act['c']][0].arrive(media_encode(act['k'], media_base(act['b'])))
+            await _settle()
+            take(act)
+        elif a == 'mutate':
+            obj = world[act['o'] - 1]
+            if not media_mutable(obj) or media_abstract(obj)['b'] < 0:
+                errors.append('object %d is not a mutable value of the vocabulary (the session deviated earlier)' % act['o'])
+                take(act)
+                break
+            if act['wh'] == 'deep':
+                (next(x for x in obj if type(x) is list) if isinstance(obj, list) else obj['n']).append(act['m'])
+            elif isinstance(obj, list):
+                obj.append(act['m'])
+            else:
+                obj['_m%d' % (sum(1 for k in obj if isinstance(k, str) and k.startswith('_m')) + 1)] = act['m']
+            take(act, v=media_abstract(obj))
+        elif a == 'make':
+            world.append(media_base(act['b']))
+            take(dict(act, o=len(world)), v=media_abstract(world[-1]))
+        else:
+            srv, ses, task = conns[act['c']]
+            if ses.gate is None or task.done():
+                errors.append('connection %d cannot take %s' % (act['c'], a))
+                break
+            ses.result = None
+            nraw = len(srv.raw)
+            ses.gate.set_result(act)
+            await _settle()
+            if a == 'close':
+                take(act)
+            elif a == 'recv':
+                if ses.result is None:
+                    take(dict(act, o=len(world) + 1), v=dict(BAD_VALUE, b=-2))      # still waiting: the frame never arrived
+                    break
+                if ses.result[0] != 'ok':
+                    take(dict(act, o=len(world) + 1), v=dict(BAD_VALUE, b=-3))
+                    errors.append(ses.result[1])
+                    break
+                obj = ses.result[1]
+                shared = media_mutable(obj) and any(obj is x for x in world)
+                world.append(obj)
+                take(dict(act, o=len(world)), v=media_abstract(obj), shared=shared)
+            else:
+                sent = srv.raw[nraw:]
+                if len(sent) == 1 and ses.result and ses.result[0] == 'ok':
+                    take(act, v=media_abstract(world[act['o'] - 1]), wv=media_decode_sent(sent[0], act['k']))
+                else:
+                    take(act, v=media_abstract(world[act['o'] - 1]), wv=dict(BAD_VALUE, b=-2 - len(sent)))
+                    if ses.result and ses.result[0] != 'ok':
+                        errors.append(ses.result[1])
+                    break
+    monitor = []
+    for c, (srv, ses, task) in conns.items():
+        if not task.done():
+            task.cancel()
+            try:
+                await task
+            except BaseException:      # noqa
+                pass
+        monitor.extend(srv.mon.errors)
+    leftover = [t for t in asyncio.all_tasks() if t is not asyncio.current_task() and not t.done()]
+    for t in leftover:
+        t.cancel()
+    if leftover:
+        await asyncio.gather(*leftover, return_exceptions=True)
+    return out, {'monitor': monitor, 'errors': errors}
+
+
+def run_media_session(cfg, actions):
+    global _loop
+    if _loop is None or _loop.is_closed():
+        _loop = asyncio.new_event_loop()
+    return _loop.run_until_complete(run_media_session_async(cfg, actions))
